@@ -3,10 +3,12 @@
 package c08
 
 import (
+	"bytes"
 	"encoding/json"
 	"fmt"
 	"math/rand/v2"
 	"os"
+	"path/filepath"
 	"strings"
 	"time"
 
@@ -127,6 +129,10 @@ func Check(r *core.Run) error {
 	if err != nil {
 		return err
 	}
+	aux := filepath.Join(r.Scratch, "subjects.ndjson")
+	if err := os.WriteFile(aux, append(bytes.Join(sl, []byte("\n")), '\n'), 0o644); err != nil {
+		return err
+	}
 	var subjects []string
 	for _, l := range sl {
 		var v struct {
@@ -168,7 +174,7 @@ func Check(r *core.Run) error {
 		}
 	}
 	r.AddEvals(int64(len(pl)) * int64(len(subjects)))
-	vs, err := obs.Check(r, lines, obs.CheckOpts{Module: "RegexCheck", Cfg: obs.StdCfg(fmt.Sprintf("MaxLen = %d", maxLen)), ChunkSize: 600, Parallel: 12, Timeout: 40 * time.Minute, Heap: "3g"})
+	vs, err := obs.Check(r, lines, obs.CheckOpts{Module: "RegexCheck", Cfg: obs.StdCfg(fmt.Sprintf("MaxLen = %d", maxLen)), ChunkSize: 600, Parallel: 12, Timeout: 40 * time.Minute, Heap: "3g", Env: map[string]string{"VERIF_AUX": aux}})
 	if err != nil {
 		return err
 	}
